@@ -77,6 +77,9 @@ type Config struct {
 	Prog     [][]Op  `json:"prog"`
 	Perm     []int   `json:"perm"` // address rank of each logical channel
 	Trace    []int32 `json:"trace,omitempty"`
+	Sys      bool    `json:"sys,omitempty"`   // systematic (bounded-preemption DFS) schedule: Trace is the decision prefix
+	Bound    int     `json:"bound,omitempty"` // pre-emption bound
+	Spur     int     `json:"spur,omitempty"`  // spurious wake-up bound
 }
 
 type Failure struct {
@@ -88,7 +91,11 @@ type Failure struct {
 
 // ---------------------------------------------------------------- workload generation
 
-func genConfig(seed int64, profile string) Config {
+func genConfig(seed int64, profile string) Config { return genConfigSized(seed, profile, false) }
+
+// genConfigSized with small=true draws the workloads of the systematic leg: 2-3 threads x 1-3 ops (at most 6 ops in all)
+// on 1-2 channels, small enough for every schedule within the pre-emption bound to be executed.
+func genConfigSized(seed int64, profile string, small bool) Config {
 	r := rand.New(rand.NewSource(seed*1000003 + 17))
 	c := Config{Seed: seed, Profile: profile}
 	big := r.Intn(12) == 0
@@ -98,6 +105,14 @@ func genConfig(seed int64, profile string) Config {
 	if big {
 		c.Nth = 3 + r.Intn(6)
 		c.Nops = 4 + r.Intn(17)
+	}
+	if small {
+		c.Nth = 2 + r.Intn(2)
+		c.Nops = 1 + r.Intn(3)
+		if c.Nth == 3 && c.Nops == 3 {
+			c.Nops = 2
+		}
+		c.Nch = 1 + r.Intn(2)
 	}
 	for i := 0; i < c.Nch; i++ {
 		c.Caps = append(c.Caps, []int{0, 0, 1, 2}[r.Intn(4)])
@@ -243,7 +258,10 @@ func stateTag(c *rt.Chan) string {
 
 func runOne(cfg Config) *world {
 	var s *vs.Sched
-	if cfg.Trace != nil {
+	if cfg.Sys {
+		s = vs.NewSystematic(cfg.Trace, cfg.Bound, cfg.Spur)
+		cfg.Spurious, cfg.Strat = false, -1
+	} else if cfg.Trace != nil {
 		s = vs.NewReplay(cfg.Trace)
 	} else {
 		s = vs.New(cfg.Seed*7919 + 1)
@@ -1001,6 +1019,11 @@ type Report struct {
 	ClassCounts   map[string]int `json:"failure_class_counts"`
 	Failures      []Failure      `json:"failures"`
 	Sample        []string       `json:"sample_history"`
+	SysWorkloads  int            `json:"sys_workloads"`
+	SysComplete   int            `json:"sys_workloads_enumerated_completely"`
+	SysTruncated  int            `json:"sys_workloads_truncated"`
+	SysDiverged   int            `json:"sys_diverged_runs"`
+	SysMaxSched   int            `json:"sys_max_schedules_of_one_workload"`
 }
 
 func main() {
@@ -1009,6 +1032,9 @@ func main() {
 	profile := flag.String("profile", "full", "full | noselect")
 	out := flag.String("out", "", "report file")
 	replay := flag.String("replay", "", "replay a failure file (JSON Failure)")
+	sys := flag.Int("sys", -1, "systematic leg: enumerate EVERY schedule with at most this many pre-emptions for each (small) workload")
+	spur := flag.Int("spur", 0, "systematic leg: spurious wake-up bound")
+	maxruns := flag.Int("maxruns", 40000, "systematic leg: cap on schedules per workload (beyond it the workload counts as truncated)")
 	flag.Parse()
 
 	if *replay != "" {
@@ -1050,13 +1076,7 @@ func main() {
 	rep := Report{Pairs: map[string]int{}, Sites: map[string]int{}, ClassCounts: map[string]int{}}
 	sched := map[uint64]bool{}
 	progs := map[uint64]bool{}
-	for seed := *from; seed < *from+*n; seed++ {
-		cfg := genConfig(seed, *profile)
-		w := runOne(cfg)
-		if w == nil {
-			rep.AllocSkipped++
-			continue
-		}
+	account := func(cfg Config, w *world) {
 		rep.Runs++
 		rep.Events += len(w.evs)
 		rep.Steps += w.s.Steps
@@ -1079,7 +1099,7 @@ func main() {
 		}
 		if w.s.StepLim {
 			rep.StepLimit++
-			continue
+			return
 		}
 		fs := check(cfg, w)
 		if len(fs) == 0 && w.s.Stuck {
@@ -1101,6 +1121,58 @@ func main() {
 				rep.Failures = append(rep.Failures, Failure{Class: x.class, Detail: x.detail, Config: c, Events: evLog(w)})
 			}
 		}
+	}
+	for seed := *from; seed < *from+*n; seed++ {
+		if *sys >= 0 {
+			cfg := genConfigSized(seed, *profile, true)
+			cfg.Sys, cfg.Bound, cfg.Spur = true, *sys, *spur
+			rep.SysWorkloads++
+			runs := 0
+			// iterative bounding: every schedule with <= 1 pre-emption first (always completes), then the full bound up to the cap
+		bounds:
+			for _, b := range []int{1, *sys} {
+				if b > *sys || (b == *sys && *sys == 1 && runs > 0) {
+					continue
+				}
+				cfg.Bound = b
+				var prefix []int32
+				for {
+					cfg.Trace = prefix
+					w := runOne(cfg)
+					if w == nil {
+						rep.AllocSkipped++
+						break
+					}
+					runs++
+					if w.s.Diverged {
+						rep.SysDiverged++
+					}
+					account(cfg, w)
+					prefix = w.s.NextPrefix()
+					if prefix == nil {
+						if b == *sys {
+							rep.SysComplete++
+						}
+						break
+					}
+					if runs >= *maxruns {
+						rep.SysTruncated++
+						break bounds
+					}
+				}
+			}
+			if runs > rep.SysMaxSched {
+				rep.SysMaxSched = runs
+			}
+			continue
+		}
+		cfg := genConfig(seed, *profile)
+		w := runOne(cfg)
+		if w == nil {
+			rep.AllocSkipped++
+			continue
+		}
+		account(cfg, w)
 	}
 	rep.Distinct = len(sched)
 	rep.DistinctProgs = len(progs)
